@@ -54,6 +54,7 @@ def gen(args):
     emd = core.import_emd()
     seqs, do_env = args[:2]
     modes = args[2] if len(args) > 2 else MODES
+    force_mm = args[3] if len(args) > 3 else None      # C06's effect leg: every call is made with the caller's magnitude padding
     recs = []
     gpe = emd.sift.get_padded_extrema
     ie = emd.sift.interp_envelope
@@ -73,7 +74,7 @@ def gen(args):
         for pw in range(0, 6):
             for parab in (0, 1):
                 for mode in modes:
-                    mm = 'reflect' if (si + pw + parab) % 4 == 0 else 'edge'
+                    mm = force_mm or ('reflect' if (si + pw + parab) % 4 == 0 else 'edge')
                     kw = {'mag_pad_opts': user_mag} if mm == 'reflect' else {}
                     o = core.guarded(gpe, x, pad_width=pw, mode=mode, parabolic_extrema=bool(parab), **kw)
                     if isinstance(o, str):
@@ -88,7 +89,7 @@ def gen(args):
                     continue
                 for emode in EMODES:
                     for method in METHODS:
-                        mm = 'reflect' if (si + pw) % 3 == 0 else 'edge'
+                        mm = force_mm or ('reflect' if (si + pw) % 3 == 0 else 'edge')
                         r = {'kind': 'env', 'sig': list(sq), 'pw': pw, 'emode': emode, 'method': method, 'parab': parab, 'mm': mm,
                              'none': 0, 'n_out': -1, 'locs': [], 'mags': [], 'grid': 'n/a', 'knots': []}
                         try:
